@@ -82,9 +82,25 @@ def check_c09(tier, t0):
 
 
 def check_c02(tier, t0):
+    from common import workdir
     r = msglevel.run_pipeline("C02", tier)
-    vio = r["summary"]["props"]["C02"]["violations"]
-    return report("C02", tier, "model_checking", vio, _msg_cov(r, "C02", RULE_MSG), MSG_ASSUMPTIONS, t0)
+    vio = list(r["summary"]["props"]["C02"]["violations"])
+    # field level: every content of the FieldFormats shape space that a field parser accepts
+    wd = workdir("C02-%s" % tier)
+    cases, n, mc, cfg = run_fieldformats(wd, tier)
+    out = os.path.join(wd, "fields_out.json")
+    run_harness(["fields", "--cases", cases, "--out", out])
+    s = json.load(open(out))
+    vio += [{"sig": v["sig"], "replay": v["replay"]} for v in s["c02_violations"]]
+    log("[C02] field level: %d accepted contents of %d field types re-parsed from their own serialisation, %d mismatch signatures" %
+        (s["c02_evaluated"], s["fields"], len(s["c02_violations"])))
+    cov = _msg_cov(r, "C02", RULE_MSG + "; field level: every content of the FieldFormats shape space (" + cfg +
+                   ") that the field's parser accepts, serialised, re-parsed and compared in value and text")
+    cov["states"] += mc["distinct"]
+    cov["transitions"] += mc["generated"]
+    cov["evaluations"] += s["c02_evaluated"]
+    cov["field_level_contents"] = s["c02_evaluated"]
+    return report("C02", tier, "model_checking", vio, cov, MSG_ASSUMPTIONS, t0)
 
 
 CHECKS = {
